@@ -236,7 +236,11 @@ MANIFEST = {
             "goroutine (sends and receives are rendezvous, so the pattern is exact) and through Collection/Value.Pull "
             "without backpressure with real writes (each write must return although the reader is idle); backpressure "
             "scenarios check that the writer waits and nothing is dropped; the 5 s Value send timeout is exercised once "
-            "in the thorough tier.",
+            "in the thorough tier. spec/SendTimeout.tla models the timed write path of Value.Set (publication mutex, a "
+            "fresh timer per send, the forwarder's one-event slot, consumer receives, cancel, ticks; TimerFromStart and "
+            "LeakOnTimeout refuted); its behaviours are replayed in real time (one tick = one second) side by side and "
+            "validated by TLC (no hang, error only after the write's own five seconds, nothing dropped, a lossy onlooker "
+            "ends with the latest value).",
     "note": "Trusted base: TLC; the harness's channel choreography; bodies abstracted to default_int32. The wall-clock "
             "assertions are one-sided with wide margins (a blocked write is observed for 150 ms; the timeout must fall "
             "in 4-9 s).",
